@@ -71,6 +71,10 @@ def build_pool(seed: int, tier: str):
     add("text-without-table", "*=0x008000\n.text 'AB'\n", "low", entries=("mem", "file_ips"))
     add("include-user", "*=0x018000\n.include 'part.s'\n.dl lb_inc\n", "low", {"part.s": "lb_inc:\n.db 9\n"}, entries=("mem", "cli"))
     add("include-other-content", "*=0x018000\n.include 'part.s'\n.dl lb_inc\n", "low", {"part.s": ".db 1, 2\nlb_inc:\n"}, entries=("mem",))
+    add("incbin-user", "*=0x018000\n.incbin 'blob.bin'\nlb_after:\n.dl lb_after, blob_bin, blob_bin__size\n", "low", {"blob.bin": {"hex": "0102030405"}}, entries=("mem", "file_ips"))
+    add("incbin-other-content", "*=0x018000\n.incbin 'blob.bin'\nlb_after:\n.dl lb_after, blob_bin, blob_bin__size\n", "low", {"blob.bin": {"pat": [5, 300]}}, entries=("mem", "cli"))
+    add("ips-user", "*=0x018000\n.db 1\n.include_ips 'p.ips', 0\n", "low", {"p.ips": {"hex": (b"PATCH" + b"\x02\x00\x00\x00\x02ab" + b"EOF").hex()}}, entries=("mem",))
+    add("ips-other-content", "*=0x018000\n.db 1\n.include_ips 'p.ips', 0\n", "low", {"p.ips": {"hex": (b"PATCH" + b"\x03\x00\x00\x00\x00\x00\x04\x7e" + b"EOF").hex()}}, entries=("mem", "file_ips"))
     # failures at every stage
     add("fail-scan", "*=0x008000\n.db 1\n$\n", "low", entries=("mem", "file_ips", "cli"))
     add("fail-scan-string", "k_shared := 9\n.macro m_shared(p_sx) {\n.db 0x55\n}\n*=0x008000\n.ascii 'abc\n", "low", entries=("mem", "cli"))
@@ -122,7 +126,7 @@ def custom_units(tier, seed):
     return [{"shard": s, "n": n, "tier": tier} for s in range(16)]
 
 
-SENSITIVE = {"probe-low", "probe-high", "probe-unmapped-in-low", "uses-shared-undefined", "uses-macro-undefined", "uses-scope-undefined", "if-on-shared", "text-without-table", "table-user", "table-user-2",
+SENSITIVE = {"incbin-user", "incbin-other-content", "ips-user", "ips-other-content", "probe-low", "probe-high", "probe-unmapped-in-low", "uses-shared-undefined", "uses-macro-undefined", "uses-scope-undefined", "if-on-shared", "text-without-table", "table-user", "table-user-2",
              "include-user", "include-other-content", "valid-generated"}
 
 
